@@ -106,7 +106,7 @@ def _run_case(case):
             r.fail('%s:%s:dim%d' % (what, mode, dim), msg)
 
     rw = c01.ref_wavelet(case)
-    r.label('rescaled_filter_bank' if case.get('wave_form') == 'tuple' and case.get('fb_scale', [1.0, 1.0]) != [1.0, 1.0]
+    r.label('rescaled_filter_bank' if case.get('wave_form') in ('tuple', 'object') and case.get('fb_scale', [1.0, 1.0]) != [1.0, 1.0]
             else None)
 
     def pywt_roundtrip(x):
